@@ -69,6 +69,13 @@ Definition method_of (tok : bytes) : method :=
 Definition method_name (m : method) : bytes :=
   match m with MKnown i => nth i sip_method_names [] | MOther t => t end.
 
+(* Method::parse: take_while1(token), then the classification; what follows the token is left to the caller
+   (CSeq / RAck stop there, the request line goes on with a blank) *)
+Definition is_token_char (c : byte) : bool := mem c sip_token_class.
+Definition method_parse (s : bytes) : option (method * bytes) :=
+  let '(a, b) := take_while is_token_char s in
+  match a with [] => None | _ :: _ => Some (method_of a, b) end.
+
 (* ---------- parameters ---------- *)
 Record param := mkparam { pm_name : bytes; pm_value : option bytes }.
 
